@@ -17,6 +17,8 @@ var Hostile = []string{
 	"# heading", "*em* **strong** `code`", "[a](b)", "| a | b |", "> quote", "$x^2$", "$$y$$", "~~s~~", "- [ ] task",
 	"../", "a/b.png", "x.", ".png", "x.JPG", "x.tar.gz", "noext", "image0.png", "word/media/image1.png", "C:\\dir\\f.png", "名前.png",
 	"[IMAGE:x]", "%s%d%n", "'; DROP TABLE", "rId1", "Heading1", "0", "-1",
+	// text that means something to a regexp replacement template, a format string or an HTML-minded unescaper
+	"$1", "${1}x", "$name costs $100", "$0 $$", "\\1", "&nbsp;", "?a=1&copy=2&reg=3", "a&lt b", "&#12345678;",
 }
 
 // XMLSafe are corpus strings every XML 1.0 document can carry unchanged.
@@ -24,6 +26,7 @@ var XMLSafe = []string{
 	" lead", "trail ", " both ", "a\tb", "line1\nline2", "<", ">", "&", "\"", "'", "<b>bold</b>", "a & b < c > d", "]]>", "<!-- c -->",
 	"&amp;", "&lt;tag&gt;", "</w:t></w:r>", "e\u0301\u0323", "中文段落", "日本語テキスト", "😀🎉", "𝔘𝔫𝔦", "plain text", "Hello, World", "x", "a  b   c",
 	"\u200f\u202eRTL", "tab\there", "ümlaut ñ ß", "(1) [2] {3}",
+	"$1", "${1}x", "$name costs $100", "$0 $$", "\\1", "%s %d", "&nbsp;", "?a=1&copy=2&reg=3", "a&lt b",
 }
 
 const alphaPlain = "abcdefghijklmnopqrstuvwxyzABCDEFGHIJKLMNOPQRSTUVWXYZ0123456789"
